@@ -82,6 +82,20 @@ pub fn decorate(ch: &mut Choices, ag: &mut AG, kind: YKind) {
         ag.tokens[t] = n;
     }
     let nt = ag.tokens.len();
+    // 1/6: a token spelled like a rule (keyword style: `while: "while" ...`). Legal as long as the
+    // token is always written quoted and never declared with %token (a bare name is a token only
+    // if %token declares it); the renderer takes care of both.
+    if ch.chance(1, 6) {
+        let used_t: Vec<usize> = (0..nt).filter(|t| ag.rules.iter().any(|r| r.prods.iter().any(|p| p.syms.contains(&Sym::T(*t))))).collect();
+        let refd_r: Vec<usize> = (0..nr).filter(|x| ag.rules.iter().any(|r| r.prods.iter().any(|p| p.syms.contains(&Sym::R(*x))))).collect();
+        if !used_t.is_empty() && !refd_r.is_empty() {
+            let t = used_t[ch.pick(used_t.len())];
+            let r = refd_r[ch.pick(refd_r.len())];
+            if !ag.tokens.contains(&ag.rules[r].name) {
+                ag.tokens[t] = ag.rules[r].name.clone();
+            }
+        }
+    }
     // %epp
     if ch.chance(1, 3) {
         for t in 0..nt {
@@ -279,6 +293,12 @@ pub fn render_varied(ch: &mut Choices, ag: &AG, kind: YKind) -> (String, YLayout
     for t in 0..nt {
         let must = !used_in_prods[t] && !ag.avoid_insert.contains(&t) && !ag.implicit_tokens.contains(&t);
         declared[t] = must || ag.declare_all || w.ch.chance(1, 3);
+        if rule_names.contains(&ag.tokens[t].as_str()) && !must {
+            // a token spelled like a rule must stay undeclared, or bare uses of the name would
+            // stop being rule references
+            declared[t] = false;
+            w.feat("token-spelled-like-a-rule");
+        }
     }
     let bare_ok: Vec<bool> = (0..nt)
         .map(|t| declared[t] && is_ident(&ag.tokens[t]) && !rule_names.contains(&ag.tokens[t].as_str()))
